@@ -869,7 +869,12 @@ class NpModule(object):
         return I.scalar_kind(args[0]) is not None or isinstance(args[0], str)
 
     def f_asarray(self, I, fr, args, kwargs):
+        if isinstance(args[0], ip.Obj) and kwargs.get('dtype') is not None and isinstance(args[0].cls, ip.ClassV) and args[0].cls.lookup('__array__')[1] is not None \
+                and getattr(fr.st, 'abstract_arrays', False):
+            return I.call(I._getattr(args[0], '__array__', fr), [kwargs['dtype']], {}, fr)       # NumPy passes the requested dtype to __array__
         a = unwrap(I, fr, args[0])
+        if hasattr(a, 'np_conv'):
+            return a.np_conv(I, fr, dict(kwargs, **({'dtype': args[1]} if len(args) > 1 else {})), 'asarray')
         if isinstance(a, (carr.CArr, Table)):
             return a
         if isinstance(a, PArr):
@@ -883,6 +888,8 @@ class NpModule(object):
 
     def f_array(self, I, fr, args, kwargs):
         a = unwrap(I, fr, args[0])
+        if hasattr(a, 'np_conv'):
+            return a.np_conv(I, fr, kwargs, 'array')
         if isinstance(a, carr.CArr):
             return carr.materialise(a) if kwargs.get('copy', True) else a
         if getattr(fr.st, 'closure_arrays', False) and isinstance(a, (list, tuple)) and all(I.scalar_kind(x) is not None for x in a):
